@@ -365,8 +365,10 @@ func childFree(o *output) {
 	go func() { defer bg.Done(); bytePoolCycles(o, &stop, 4, true) }()
 	go func() { defer bg.Done(); calcWorkers(o, &stop, 4) }()
 	var fg sync.WaitGroup
-	fg.Add(3)
+	fg.Add(5)
 	go func() { defer fg.Done(); cryptoShared(o, true) }()
+	go func() { defer fg.Done(); returnedContainers(o, true) }()
+	go func() { defer fg.Done(); sharedCipherObjects(o) }()
 	go func() { defer fg.Done(); registryRounds(o, ev.Pick(3000, 60000), 8) }()
 	go func() { defer fg.Done(); freePipelines(o, ev.Pick(160, 6000), 8, ev.Seed()*104729+5) }()
 	fg.Wait()
